@@ -81,7 +81,20 @@ def run(chk, tier):
     chk.rule("R-PROG", "loop progress in the discovery code")
     nl = progloops.run(chk, P, ["topology-linux.c", "topology-x86.c", "pci-common.c", "components.c"])
     chk.floor("R-PROG", "in-scope loops", nl, 60)
-    chk.decided += ['a value read from a sysfs/procfs file into an unset local is not used when the read failed; a pointer left NULL by a failed parser is not dereferenced',
+    chk.rule("R-CONSUMED", "a pointer handed to a function that takes ownership of it (discovered per function and parameter by exploring it: every exit -- or every successful exit -- has released the parameter, "
+             "stored it into a field that the program releases, or handed it to such a function) is not released again by the caller: callers explored with callee outcomes forked into failed / succeeded")
+    import consumed
+    ncs, cfound = consumed.run(chk, P, ["topology-linux.c", "topology-x86.c", "pci-common.c", "topology-pci.c", "topology-synthetic.c"])
+    chk.floor("R-CONSUMED", "call sites of ownership-taking functions", ncs, 4)
+    chk.floor("R-CONSUMED", "ownership-taking functions discovered", len(cfound), 2)
+    chk.rule("R-DANGLE", "a local pointer stored into a field the program releases through (`X->f = p`) and then released by the same function never leaves the field unchanged at an exit: "
+             "explored paths store -> release of the same local -> no later store to the field -> exit are reported (the owner would release the block again)")
+    import consumed as _consumed
+    ndg = _consumed.dangling(chk, P, ["topology-linux.c", "topology-x86.c", "pci-common.c", "topology-pci.c", "topology-hardwired.c"])
+    chk.floor("R-DANGLE", "stores of a local into an owning field", ndg, 4)
+    chk.decided += ['a failed step never leaves an owning field pointing at a block the function has already released (no dangling pointer for the destructor to release again)',
+                    'arrays handed to a function that takes ownership of them (hwloc_internal_distances_add: attached on success, freed on failure) are not freed again by the caller',
+                    'a value read from a sysfs/procfs file into an unset local is not used when the read failed; a pointer left NULL by a failed parser is not dereferenced',
                     'the KNL memory-side cache obeys the filter of the type in use',
                     'failing returns past a cleanup jump have released what the label releases',
                     'heap path/line buffers are filled with their allocated size',
